@@ -411,7 +411,10 @@ class Visitor:
         property_function = self.get_base_property(decorators, function)
 
         if overload:
-            self.current.overloads[function.name].append(function)
+            # Only modules and classes collect overloads (a function defined
+            # in the body of `__init__` is local to it: its overloads are ignored).
+            if self.current.kind in {Kind.MODULE, Kind.CLASS}:
+                self.current.overloads[function.name].append(function)
         elif property_function:
             base_property: Attribute = self.current.members[node.name]  # type: ignore[assignment]
             if property_function == "setter":
